@@ -58,12 +58,12 @@ def t_pre_post(world):
     return obs
 
 
-def mk_fee(dec_a, dec_l):
+def mk_fee(dec_a, dec_l, prefix='C05.c.'):
     def t(world):
         kernels = [k for k in KERNELS if k not in (r'BankAccountWrapper', r'calc_value$', r'calc_amount$', r'get_liability_amount$', r'get_asset_amount$')] + [r'get_liability_amount$', r'get_asset_amount$']
         eng, f, args, res = run_handler(world, r'liquidate::lending_account_liquidate$', kernels=kernels, summaries=SUMMARIES, max_paths=200000,
                                         extra_opaque=[r'get_balance_decimals$'])
-        ob = Ob(f'C05.c.{dec_a}-{dec_l}', 'liquidate: debt relief = value(seized, low asset price, 0.95)/high debt price, liquidator leg 0.975, insurance fee = difference >= 0 split into whole tokens (vault) + fraction (bucket); seize guarded by the over-liquidation check; correct wrapper modes',
+        ob = Ob(f'{prefix}{dec_a}-{dec_l}', 'liquidate: debt relief = value(seized, low asset price, 0.95)/high debt price, liquidator leg 0.975, insurance fee = difference >= 0 split into whole tokens (vault) + fraction (bucket); seize guarded by the over-liquidation check; correct wrapper modes',
                 [f.name], f'handler mode with calc_value/calc_amount inlined; asset decimals {dec_a}, liability decimals {dec_l}; prices and amount symbolic'); ob.paths = len(res)
         x = args[1].e      # asset_amount u64
         n_ok = 0
